@@ -6,7 +6,7 @@ _PORT_RULE = ("cases from one PRNG (VERIF_SEED): a real chmux connection with on
               "(fills the event queue), delivery of 1-4 messages A->B and of credit messages B->A one step at a time, the receiver pumping "
               "(recv_any, then recv_chunk after Chunks), then a drain phase; after every big step both endpoints run to quiescence "
               "(paused Tokio clock) and the frames that appeared on the wire in both directions, the messages the receiver obtained and the "
-              "sender's status are compared with the model's big step; a case is non-trivial unless it is malformed; distinct = distinct input")
+              "sender's status are compared with the model's big step; one case in six has a consumer that gives up every other chunked message (calls recv_any again instead of draining with recv_chunk; judged by the oracle only: received is an in-order sub-sequence of the completed sends, nothing pending after the drain, no credit lost); a case is non-trivial unless it is malformed; distinct = distinct input")
 PROP = {
     "props_files": ["Props/C01.v"],
     "jobs": [{"component": "port", "comp_num": 1, "quick": 1600, "thorough": 60000, "timeout": 3000}],
